@@ -791,7 +791,7 @@ func writeAccess(repo, out string) error {
 	extFields := map[string][]string{}
 	for _, e := range []ext{
 		{"logger", "logger", []string{"MemLogger", "StdLogger"}, "MemLogger"},
-		{"store/badgerstore", "badgerstore", []string{"Store", "QueryStore"}, ""},
+		{"store/badgerstore", "badgerstore", []string{"Store", "QueryStore", "IndexQuery", "Index"}, ""},
 	} {
 		er, err := analyzePkg(filepath.Join(repo, e.dir), e.pkg, e.tracked, e.mu)
 		if err != nil {
